@@ -1538,6 +1538,14 @@ func (s *Server) sendLWT(cl *Client) {
 
 	modifiedLWT := s.hooks.OnWill(cl, cl.Properties.Will)
 
+	// A will message is published on the client's behalf, so it is subject to the same
+	// restrictions as the client's own publishes: a valid topic name, not $SYS, write permission.
+	if !cl.Net.Inline && (!IsValidFilter(modifiedLWT.TopicName, true) || !s.hooks.OnACLCheck(cl, modifiedLWT.TopicName, true)) {
+		s.Log.Warn("will message refused", "client", cl.ID, "topic", modifiedLWT.TopicName)
+		atomic.StoreUint32(&cl.Properties.Will.Flag, 0)
+		return
+	}
+
 	pk := packets.Packet{
 		FixedHeader: packets.FixedHeader{
 			Type:   packets.Publish,
